@@ -119,6 +119,20 @@ CLAIMED["C42"] = (
     "DESIGN.md section 6 C42",
 )
 
+CLAIMED["C34"] = (
+    "uniquify_point_set and _unique_points_in_cluster (numba source run as Python) are executed on symbolic "
+    "point coordinates with a concrete tolerance; the norm sort, the norm clustering and the within-tolerance "
+    "tests fork the paths, which are explored exhaustively within the bound. Under the property's clustering "
+    "precondition z3 decides on every path: two points share a class iff they are close, the representative "
+    "is the first member, classes appear in order of first occurrence, unique point values equal their "
+    "representatives. One genuine defect (norm-cluster straddle) is a recorded known finding, matched by a "
+    "predicate on the inputs; any other violation is still reported. Only the uniquification clause is claimed.",
+    "Floats as exact reals; tol = 1/8; coordinates in [-4,4]; (N points, D dims) in {(2,1),(3,1),(2,2)} quick, "
+    "+ (4,1),(3,2),(2,3) thorough; ismember_columns / intersect_sets are outside (integer np.unique, KD-tree).",
+    "symbolic execution of the uniquify kernels on z3 reals (sqrt as defined variables) + SMT",
+    "DESIGN.md section 6 C34",
+)
+
 NOT_APPLICABLE = {
     "C11": "MPFA local systems are inverted in LAPACK/numba kernels on data-dependent block structures; a symbolic inverse of the interaction-region blocks is beyond z3/cvc5 and with concrete matrices nothing quantified remains for a solver.",
     "C13": "MPSA: same obstacle as C11 with 2-3x larger local systems.",
